@@ -124,8 +124,9 @@ def b_rechunk_2d(n, m, c, c2, d, d2, M, irregular):
     return out, {"shape": (n, m), "src": "x"}
 
 
-def b_store_whole(n, c, tc, lazy_source):
-    """store a source (leaf, or computed by an op) into an EXISTING array with its own chunking tc"""
+def b_store_whole(n, c, tc, lazy_source, open_region=0):
+    """store a source (leaf, or computed by an op) into an EXISTING array with its own chunking tc; open_region=1 passes the
+    all-open region (slice(None),), which means the whole target just as region=None does"""
     import cubed
 
     c01._start()
@@ -134,7 +135,8 @@ def b_store_whole(n, c, tc, lazy_source):
     x = G.stub_array("x", (n,), (c,))
     src = c01._xp().negative(x) if lazy_source else x
     target = G.ZStub((n,), (tc,), "float64")
-    (out,) = cubed.store([src], [target], compute=False)
+    kw = {"regions": (slice(None),)} if sx.conc(open_region) == 1 else {}
+    (out,) = cubed.store([src], [target], compute=False, **kw)
     return out, {"shape": (n,), "target": target, "region": None, "src_chunks": c, "lazy": bool(lazy_source)}
 
 
